@@ -112,3 +112,19 @@ Example C16_oracle_example :
                  {| r_name := [98%N]; r_nomemo := false; r_body := Box BTrue tok |} ] in
   mark rules = [(true, false); (false, true)] /\ mark_with false (fun _ => false) rules = [(false, true); (false, true)].
 Proof. cbv zeta. split; vm_compute; reflexivity. Qed.
+
+(* the fuel of [rn_of]: when the evaluation of a rule's `_nullable` returns at all (Some b; None = the
+   unbounded recursion of D10c), the fuelled boolean function used by [mark] has that value, and it is stable *)
+Theorem C16_rule_nullable_fuel_sound : forall rules fuel i b,
+  rule_nullable_opt fuel rules i = Some b ->
+  rule_nullable fuel rules i = b /\ forall fuel', fuel <= fuel' -> rule_nullable_opt fuel' rules i = Some b.
+Proof.
+  intros rules fuel i b H. split; [exact (rule_nullable_opt_sound rules fuel i b H)|].
+  intros fuel' Hle. exact (rule_nullable_opt_mono rules fuel fuel' i b Hle H).
+Qed.
+Print Assumptions C16_rule_nullable_fuel_sound.
+
+Example C16_compile_recursion_example :
+  let rules := [ {| r_name := [97%N]; r_nomemo := false; r_body := Seq [Box BPos (Call 0); tok] |} ] in
+  forall fuel, rule_nullable_opt fuel rules 0 = None.
+Proof. cbv zeta. induction fuel as [|f IH]; [reflexivity|]. cbn. unfold body_of. cbn. now rewrite IH. Qed.
